@@ -234,7 +234,12 @@ func (lx *lexer) parseExpr(min int) *Expr {
 			}
 			p := Param{Name: n.text, Type: "int"}
 			if lx.accept(":") {
-				p.Type = lx.next().text
+				if lx.accept("*") {
+					// typed pointer: forall l: *T
+					p.Type = "*" + lx.next().text
+				} else {
+					p.Type = lx.next().text
+				}
 			}
 			bs = append(bs, p)
 			if !lx.accept(",") {
@@ -242,7 +247,11 @@ func (lx *lexer) parseExpr(min int) *Expr {
 			}
 		}
 		var pats []*Expr
-		if lx.accept("{") {
+		for lx.accept("{") {
+			// several {..} groups are alternative patterns; a group with commas is one multi-pattern
+			if len(pats) > 0 {
+				pats = append(pats, &Expr{Op: "patsep"})
+			}
 			for !lx.isP("}") {
 				pats = append(pats, lx.parseExpr(0))
 				if !lx.accept(",") {
